@@ -484,6 +484,39 @@ def probe_short_table(chk, mods):
         chk.violation(SHORT_TABLE_KEY, msg, {'kind': 'shorttable', 'key': SHORT_TABLE_KEY})
 
 
+def check_wrap_span(chk, mods, case):
+    fn = os.path.join(chk.scratch, 'w.skool')
+    with open(fn, 'w') as f:
+        f.write(annot.wrap_span_skool(case))
+    out, err = capture(mods['skool2asm'].main, ['-q', fn])
+    return annot.check_wrap_span_asm(out, err, case)
+
+
+OVERLAP_TABLE_KEY = 'asm-table-overlapping-wrapped-colspans-too-wide'
+
+
+def probe_overlap_table(chk, mods):
+    """Two wrappable cells whose colspans overlap (columns 0-1 in one row, 1-2 in another): Table.prepare_cells widens
+    the columns up to the text width and wraps the cells for those widths, then recomputes the column widths from
+    scratch (colspan-1 cells first, the spanning cells' needs handed out round-robin), which for overlapping spans
+    gives a wider table than the one the cells were wrapped for: at line width 79 the table of short words below comes
+    out 85 characters wide with a 'Table in entry at 32768 is 83 characters wide' warning, although it fits in 79.
+    Genuine defect of the unchanged tree. Raised as a violation only if the integrator lists the key in
+    KNOWN_FINDINGS.txt (then it is a known finding and must keep reproducing); otherwise reported as an observation.
+    Patch proposal: /tmp/fix_E2_1.diff."""
+    import framework
+    msgs = []
+    for lw in (79, 60):
+        fails = check_wrap_span(chk, mods, annot.wrap_span_case(lw, overlap=True))
+        chk.case('e2e-wrap-span-table', ('wrapspan-overlap', lw), None)
+        msgs += [d for k, d in fails]
+    if msgs:
+        if OVERLAP_TABLE_KEY in framework.load_known(chk.pid):
+            chk.violation(OVERLAP_TABLE_KEY, msgs[0], {'kind': 'wrapspan', 'lw': 79, 'overlap': True, 'key': None})
+        else:
+            chk.note('observation (genuine defect outside the known-findings list, not raised as a violation; key %s): %s' % (OVERLAP_TABLE_KEY, msgs[0][:400]))
+
+
 def rand_cfg(rng):
     return {'line_width': rng.choice((40, 41, 50, 60, 79, 79, 80, 100, 132, 200)),
             'instr_width': rng.choice((5, 10, 15, 23, 23, 30)), 'indent': rng.choice((0, 1, 2, 2, 4, 8)),
@@ -573,6 +606,16 @@ def e2e(chk, mods):
         report(chk, 'spantable', check_span_table(chk, mods, case, text), {'case': case, 'text': text})
         chk.case('e2e-span-table', ('spantable', n), {'tool': 'skool2asm/skool2html/sna2skool', 'definition': ' '.join(case['ttoks'])[:120]} if n < 1 else None)
     probe_short_table(chk, mods)
+    # 6. #TABLEs in which a wrappable (:w) column holds cells spanning 2-3 columns, short words only: deterministic sweep
+    #    of every line width (the widening loop stops on a width that depends on the parity of line width, column count
+    #    and minimum widths): no line wider than the line width, no warning, every word once and in order
+    for lw in range(40, chk.scale(131, 201)):
+        case = annot.wrap_span_case(lw)
+        report(chk, 'wrapspan', check_wrap_span(chk, mods, case), {'lw': lw, 'text': annot.wrap_span_skool(case)})
+        for e in case['entries']:
+            chk.case('e2e-wrap-span-table', ('wrapspan', lw, e['name']),
+                     {'tool': 'skool2asm', 'line_width': lw, 'definition': ' '.join(e['ttoks'])[:120]} if lw == 40 and e['addr'] == 32768 else None)
+    probe_overlap_table(chk, mods)
     for x in sorted(tab_notes):
         chk.note('observation (not a violation), %d case(s): %s' % (tab_notes[x], x))
 
@@ -602,7 +645,9 @@ def run(chk):
                 'groups: dot/semicolon-leading words at the start of every kind of source line (skool) and pushed across every wrap boundary '
                 '(ctl); annotations of 60-150 lines and 10-14 paragraphs; closing-brace fit boundary; long text around #LIST/#TABLE; #TABLEs '
                 'with colspan/rowspan/header/transparent cells (unique words: each exactly once, in order within its cell); control-file '
-                'comments given with dot/colon directives')
+                'comments given with dot/colon directives; #TABLEs whose wrappable (:w) column holds cells spanning 2-3 columns (short words only; '
+                ':w on the first / last / several columns, spans side by side, with a rowspan, next to a wrapped plain cell) x every line '
+                'width 40..130 (thorough: ..200): no line wider than the line width, no table warning, words once and in order')
     chk.trusted += ['hand models lean/SkoolVerif/Model/Wrap.lean, Model/AsmRows.lean, Model/Braces.lean tied by correspondence '
                     '(harness/props/c18.py) to skoolkit.wrap, AsmWriter.print_instructions/print_comment_lines/format, '
                     'parse_address_comments, SkoolWriter._format_instruction_comments',
@@ -623,7 +668,10 @@ def run(chk):
         '(C18.C18_ctl_full_false, C18.C18_span_full_false)',
         'observation (probe_short_table; raised as a violation only when its key asm-table-last-column-only-colspan-crash is listed in '
         'KNOWN_FINDINGS.txt): skool2asm raises IndexError on a #TABLE whose last column is reached only through colspan cells; such '
-        'tables are excluded from the random span-table stream']
+        'tables are excluded from the random span-table stream',
+        'observation (probe_overlap_table; raised as a violation only when its key asm-table-overlapping-wrapped-colspans-too-wide is '
+        'listed in KNOWN_FINDINGS.txt): a #TABLE with two wrappable cells whose colspans overlap (columns 0-1 and 1-2) comes out wider '
+        'than the line width although it fits (column widths are recomputed after wrapping); such tables are excluded from the sweep']
     mods = load(chk)
     ok = chk.lake_build([PROPS, 'SkoolVerif.Prelude.Proto'])
     chk.audit(PROPS)
@@ -656,6 +704,8 @@ def replay(chk, data):
             return True
     elif kind == 'spantable':
         fails = check_span_table(chk, mods, data['case'], data['text'])
+    elif kind == 'wrapspan':
+        fails = check_wrap_span(chk, mods, annot.wrap_span_case(data['lw'], overlap=data.get('overlap', False)))
     else:
         fails, _ = check_ctl(chk, mods, data['spec'], data['line_width'], data.get('text'))
     for k, d in fails:
